@@ -122,8 +122,8 @@ def step (s : St) : Op → St × List Out
   | .ackReq up =>
     (s, if s.enabled then emit up (.a s.lastIn) else [])
   | .recv k =>
-    -- counted whether or not stream management is enabled
-    (if k.isStanza then { s with lastIn := s.lastIn + 1 } else s, [])
+    -- counted only while stream management is enabled (repo commit 6d4ec74)
+    (if s.enabled && k.isStanza then { s with lastIn := s.lastIn + 1 } else s, [])
   | .sessionClosed => ({ s with enabled := false }, [])
   | .enabledNew up =>
     ({ s with enabled := true, lastOut := s.unacked.length, lastIn := 0,
@@ -162,33 +162,20 @@ def resendBlock (l : List (Nat × Nat)) : List Wire :=
 
 /-! ### specification-side counting (independent of `step`) -/
 
-def Op.isEnabledNew : Op → Bool
-  | .enabledNew _ => true
-  | _ => false
-
-def Op.isRecvStanza : Op → Bool
-  | .recv k => k.isStanza
-  | _ => false
-
-/-- number of message/presence/iq elements received after the last `enabledNew` of `ops` -/
-def stanzasSinceEnable (ops : List Op) : Nat :=
-  (ops.reverse.takeWhile fun o => !o.isEnabledNew).countP Op.isRecvStanza
-
-/-- stricter reading ("on that session"): (stream management currently on?, stanzas received
-while it was on since the last `enabledNew`, stanzas received while it was off since then) -/
-def sessionCountStep (c : Bool × Nat × Nat) : Op → Bool × Nat × Nat
-  | .enabledNew _ => (true, 0, 0)
-  | .resumed _ _ => (true, c.2.1, c.2.2)
-  | .sessionClosed => (false, c.2.1, c.2.2)
-  | .recv k =>
-    if k.isStanza then (if c.1 then (c.1, c.2.1 + 1, c.2.2) else (c.1, c.2.1, c.2.2 + 1)) else c
+/-- "received on that session": (stream management currently on?, number of message/presence/iq
+elements received while it was on since the last `<enabled/>`).  A session starts with `<enabled/>`,
+is suspended by `sessionClosed`, continues with `<resumed/>`; elements received while stream
+management is off (connection down, or an intermediate session without it) do not belong to it. -/
+def sessionCountStep (c : Bool × Nat) : Op → Bool × Nat
+  | .enabledNew _ => (true, 0)
+  | .resumed _ _ => (true, c.2)
+  | .sessionClosed => (false, c.2)
+  | .recv k => if c.1 && k.isStanza then (c.1, c.2 + 1) else c
   | _ => c
 
-def sessionCount (ops : List Op) : Bool × Nat × Nat := ops.foldl sessionCountStep (false, 0, 0)
+def sessionCount (ops : List Op) : Bool × Nat := ops.foldl sessionCountStep (false, 0)
 
-/-- stanzas received while stream management was on, since the last `enabledNew` -/
-def stanzasOnSession (ops : List Op) : Nat := (sessionCount ops).2.1
-/-- stanzas received while it was off (between `sessionClosed` and the next `resumed`) -/
-def stanzasOffSession (ops : List Op) : Nat := (sessionCount ops).2.2
+/-- stanzas received on the current stream-management session after history `ops` -/
+def stanzasOnSession (ops : List Op) : Nat := (sessionCount ops).2
 
 end Qx.C09
